@@ -2,6 +2,7 @@ mod c01;
 mod c04;
 mod c05;
 mod c09;
+mod c11;
 mod live;
 mod c12;
 mod c13;
@@ -82,6 +83,7 @@ fn main() {
         ("gen", "C05") => { c05::generate("C05", seed, &tier, &mut out); c01::generate("C05", seed, &tier, &mut out) }
         ("gen", "C04") => { c05::generate("C04", seed, &tier, &mut out); c01::generate("C04", seed, &tier, &mut out); c04::generate(seed, &tier, &mut out) }
         ("gen", "C07") => c01::generate("C07", seed, &tier, &mut out),
+        ("gen", "C11") => c11::generate(seed, &tier, &mut out),
         ("gen", "C17") => c17::generate(seed, &tier, &mut out),
         ("gen", "C19") => c19::generate(seed, &tier, &mut out),
         ("gen", "C15") => c15::generate(seed, &tier, &mut out),
